@@ -137,7 +137,7 @@ VARIANT_PAIRS = [
     ("http://www.lemonde.fr/x/", "https://lemonde.fr/x"), ("http://lemonde.fr/x?utm_source=a&b=1", "lemonde.fr/x?b=1"), ("http://LEMONDE.fr:80/x/../y", "http://lemonde.fr/y"),
     ("http://lemonde.fr/%7Ex", "http://lemonde.fr/~x"), ("http://m.lemonde.fr/index.html", "http://lemonde.fr"), ("http://fr.lemonde.fr:8080/X", "https://lemonde.fr/x"),
     ("  http://lemonde.fr/a b", "http://lemonde.fr/a%20b"), ("http://xn--tlrama-bvab.fr/", "http://télérama.fr"), ("http://lemonde.fr/x#frag", "http://lemonde.fr/x"),
-    ("http://lemonde.fr/x?b=2&a=1", "http://lemonde.fr/x?a=1&b=2"), ("http://bbc.co.uk/x", "http://www.bbc.co.uk/x/index.php"), ("http://lemonde.fr/../x", "http://lemonde.fr/x"), ("http://lemonde.fr/x/../../y/z", "http://lemonde.fr/y/z"),
+    ("http://lemonde.fr/x?b=2&a=1", "http://lemonde.fr/x?a=1&b=2"), ("http://bbc.co.uk/x", "http://www.bbc.co.uk/x/index.php"), ("http://lemonde.fr/../x", "http://lemonde.fr/x"), ("lemonde.fr/x", "https://lemonde.fr/x"), ("lemonde.fr:443/x", "https://lemonde.fr/x"), ("//lemonde.fr/x/", "https://lemonde.fr/x/"), ("lemonde.fr", "https://LEMONDE.fr"), ("http://lemonde.fr/x/../../y/z", "http://lemonde.fr/y/z"),
 ]
 
 
